@@ -78,6 +78,8 @@ class TreeSpec(Spec):
     def simplifications(self, plan):
         out = []
         cfg = plan["cfg"]
+        if plan["driver"] == "dyn":
+            return []  # (the op list is shrunk by the generic ddmin; nothing else to simplify)
         if plan["driver"] != "tree":
             return drive_engine.simplifications(plan)
         if cfg["comm"]["kind"] != "zero":
@@ -267,7 +269,132 @@ class C08(TreeSpec):
     own_checks = ("idempotence", "freshness", "append_only", "beyond_now", "schedule_equivalence")
     rule = TreeSpec.rule + "; every 3rd run is a flush-schedule twin: the same op history is executed once with a full observation (refreshing reads of every node) after every operation and once with none; the final history frames of every node must be byte-identical; after a quarter of the completed operations the tree is forked (two deep copies), one copy is read directly and the other after an explicit update - a seeded sequence of three property reads must agree bit for bit, whether or not the implementation has flagged the tree stale"
 
+    # ---- trees that grow while they run: a sub-strategy created with parent= and setup_from_parent() in the middle of a date
+    DYN_PROPS = ("universe", "prices", "values", "cash", "fees", "flows", "positions", "outlays", "notional_values")
+
+    def gen_dyn(self, r, tier):
+        n = r.randint(4, 10)
+        fspec, fired = drive_engine.gen_feed(r, n, r.randint(2, 4), style=r.choice(["bday", "gaps"]), faults={}, spread_p=0.3)
+        ops = [{"op": "tick"}]
+        attach_at = r.randint(1, n - 2)
+        ticks = 1
+        nsub = 0
+        while ticks < n:
+            k = r.random()
+            if k < 0.3:
+                ops.append({"op": "tick"})
+                ticks += 1
+            elif k < 0.55:
+                ops.append({"op": "read", "node": r.randrange(8), "prop": r.randrange(len(self.DYN_PROPS))})
+            elif k < 0.75:
+                ops.append({"op": "alloc", "node": r.randrange(8), "c": r.randrange(8), "frac": r.choice([0.1, 0.3, -0.1])})
+            elif k < 0.85:
+                ops.append({"op": "dup"})
+            elif ticks >= attach_at and nsub < 2:
+                under = r.randrange(8)
+                ops.append({"op": "attach", "name": "late%d" % nsub, "under": under, "fund": r.choice([0.0, 0.2])})
+                nsub += 1
+                if r.random() < 0.6:
+                    # right after the membership change: what does the parent hand out now?
+                    ops.append({"op": "read", "strat": under, "prop": r.randrange(len(self.DYN_PROPS)) if r.random() < 0.5 else 0})
+        fired["dynamic_attach_plan"] = 1
+        cfg = {"integer": r.random() < 0.5, "capital": 1e6, "profile": "dynamic"}
+        return {"driver": "dyn", "cfg": cfg, "feed": fspec, "ops": ops, "fired": fired}
+
+    def run_dyn(self, bt, plan):
+        import numpy as np
+        import pandas as pd
+
+        feed = feedmod.Feed(plan["feed"])
+        data = feed.frames(synthetic=True)["prices"]
+        add = {}
+        if feed.has("bidoffer"):
+            add["bidoffer"] = feed.frames(synthetic=True)["bidoffer"]
+        root = bt.core.Strategy("root")
+        root.use_integer_positions(plan["cfg"]["integer"])
+        root.setup(data, **add)
+        dates = list(data.index)
+        viol, fired = [], dict(plan["fired"])
+        strats = [root]
+        ti = 0
+        prefix = []
+
+        def v(check, detail):
+            if not viol:
+                viol.append({"check": check, "detail": detail, "flags": {"dynamic_tree": True}})
+
+        def scalars():
+            return {m.full_name: tuple(float(x).hex() for x in (m.value, m.weight, m.price, m.notional_value)) for m in root.members}
+
+        try:
+            for o in plan["ops"]:
+                k = o["op"]
+                if k == "tick":
+                    if ti + 1 >= len(dates):
+                        continue
+                    if ti >= 1:
+                        prefix.append((ti + 1, {m.full_name: m.data.to_numpy(dtype=float, na_value=float("nan"))[: ti + 1].tobytes() for m in root.members}))
+                    ti += 1
+                    root.update(dates[ti])
+                    if ti == 1:
+                        root.adjust(plan["cfg"]["capital"])
+                        root.update(dates[ti])
+                elif ti == 0:
+                    continue
+                elif k == "read":
+                    nodes = root.members
+                    node = strats[o["strat"] % (len(strats) - 1 if len(strats) > 1 else 1)] if "strat" in o else nodes[o["node"] % len(nodes)]
+                    prop = self.DYN_PROPS[o["prop"] % len(self.DYN_PROPS)]
+                    if not hasattr(node, prop):
+                        continue
+                    val = getattr(node, prop)
+                    fired["dyn_read"] = fired.get("dyn_read", 0) + 1
+                    if hasattr(val, "index") and len(val.index) and val.index[-1] > root.now:
+                        v("beyond_now", "%s.%s extends to %s beyond now=%s" % (node.full_name, prop, val.index[-1], root.now))
+                elif k == "alloc":
+                    st = strats[o["node"] % len(strats)]
+                    t = feed.tickers[o["c"] % len(feed.tickers)]
+                    p = feed.price(ti - 1, t)
+                    if not (p == p and p > 0):
+                        continue
+                    amt = o["frac"] * plan["cfg"]["capital"] * (1.0 if st is root else 0.1)
+                    if st.value <= 0 and st is not root:
+                        continue
+                    st.allocate(amt, child=t)
+                    fired["dyn_alloc"] = fired.get("dyn_alloc", 0) + 1
+                elif k == "dup":
+                    root.update(root.now)
+                    a = scalars()
+                    root.update(root.now)
+                    if a != scalars():
+                        v("idempotence", "a redundant root.update(now) changed public scalars of a tree that grew while running")
+                elif k == "attach":
+                    par = strats[o["under"] % len(strats)]
+                    _u = par.universe  # (the parent's data window for the date has been read before the tree grows)
+                    sub = bt.core.Strategy(o["name"], parent=par)
+                    sub.setup_from_parent()
+                    root.update(root.now)  # (the new node's own clock starts with this update)
+                    strats.append(sub)
+                    fired["dynamic_attach"] = fired.get("dynamic_attach", 0) + 1
+                    if o["fund"]:
+                        par.allocate(o["fund"] * max(par.value, 0.0) * 0.5, child=o["name"])
+                for i, rec in prefix:
+                    for m in root.members:
+                        b = rec.get(m.full_name)
+                        if b is not None and m.data.to_numpy(dtype=float, na_value=float("nan"))[:i].tobytes() != b:
+                            v("append_only", "%s rows before date #%d changed after the clock moved on (dynamic tree)" % (m.full_name, i))
+        except ZeroDivisionError:
+            fired["dyn_zero_base"] = 1
+        except Exception as e:  # noqa
+            if any(str(e).startswith(st) for st in drive_tree.SIZING_STEMS):
+                viol.append({"check": "C10.sizing_exception", "detail": str(e)[:80], "flags": {}})
+            else:
+                viol.append({"check": "C10.unexpected_exception", "detail": "dynamic tree: %s: %s" % (type(e).__name__, str(e)[:160]), "flags": {"exc": type(e).__name__}})
+        return dict(viol=viol, fired=fired, nontrivial=bool(fired.get("dynamic_attach") and fired.get("dyn_read", 0) >= 2), info={"driver_dyn": 1}, dates=ti, steps=len(plan["ops"]))
+
     def run(self, bt, plan):
+        if plan["driver"] == "dyn":
+            return self.run_dyn(bt, plan)
         res = TreeSpec.run(self, bt, plan)
         sim_a = self._last_sim
         if plan.get("twin_flush") and not res["viol"]:
@@ -291,6 +418,8 @@ class C08(TreeSpec):
         return res
 
     def gen(self, r, tier, i):
+        if i % 12 == 5:
+            return self.gen_dyn(r, tier)
         plan = TreeSpec.gen(self, r, tier, i)
         if i % 3 == 1 and plan["driver"] == "tree":
             plan["twin_flush"] = True
@@ -403,6 +532,12 @@ def _corrupt_future(plan, cut, kind, seed):
                 for i in range(cut + 1, n):
                     tab["data"][i] = [pert(x, "scale") if x is not None else None for x in tab["data"][i]]
             continue
+        if fr["kind"] == "blotter":
+            for row in fr["rows"]:
+                if row[0] > cutdate:
+                    row[2] = pert(row[2], "scale")
+                    row[3] = pert(row[3], "scale")
+            continue
         if fr["kind"] not in ("frame", "series"):
             continue
         rows = fr.get("rows") or f["dates"]
@@ -449,6 +584,8 @@ class C04(Spec):
             plan["cfg"]["obs_eod"] = False
         elif i % 6 == 1:
             plan = drive_engine.gen_frame_gate_plan(r, tier)
+        elif i % 12 == 3:
+            plan = drive_engine.gen_replay_plan(r, tier)
         else:
             plan = drive_engine.gen_all_algos_plan(r, tier, stateful=True)
         n = len(plan["feed"]["dates"])
@@ -569,6 +706,11 @@ class C09(Spec):
                 break
         else:
             cst = [drive_engine.sched_spec(r, dates), {"a": "SelectAll"}, {"a": "WeighEqually"}, {"a": "Rebalance"}]
+        if r.random() < 0.2:
+            # the child's run ends with a change that nothing in its own stack delivers (a contribution booked after the last
+            # rebalance): the refresh after the run is the runner's job, for the stand-alone backtest and for the paper copy alike
+            cst = cst + [{"a": "CapitalFlow", "args": [r.choice([1000.0, 25000.0, 2e5, -1000.0])]}]  # (never enough to drain the book)
+            fired["child_run_ends_with_pending_flow"] = 1
         child = {"k": "S", "name": "kid", "cls": "Strategy", "fi": False, "how": "list", "children": [], "algos": cst}
         if r.random() < 0.4:
             names = r.sample(tickers, r.randint(1, len(tickers)))
@@ -907,6 +1049,12 @@ class C11(Spec):
             plan["tree"]["children"] = []
             plan["cfg"]["integer"] = False
             plan.setdefault("fired", {})["weights_dict_order_plan"] = 1
+        if r.random() < 0.3:
+            # state kept in target.perm by a user algo: every backtest (and every paper copy) must have its own
+            ss = r.choice([s2 for _p2, s2 in drive_engine.trees.strategies(plan["tree"])])
+            st = ss.get("algos", [])
+            st.insert(r.randint(0, len(st)), {"a": "PermGate", "limit": r.randint(1, 6)})
+            plan.setdefault("fired", {})["state_in_perm"] = 1
         # spies inside the stacks are the yield points of the interleaving
         k = 0
         for _p, s in drive_engine.trees.strategies(plan["tree"]):
@@ -1481,6 +1629,14 @@ class C19(Spec):
     assumptions = ["twin histories are compared with a tolerance (children iterate in a different order, so float summation order differs); in whole-unit mode a twin mismatch is counted as inconclusive (an ulp can flip a floor) unless positions agree"]
 
     def gen(self, r, tier, i):
+        if i % 20 == 10:
+            # a blotter replayed into a declared universe: the algo addresses the children by name
+            plan = drive_engine.gen_replay_plan(r, tier)
+            for c in plan["tree"]["children"]:
+                c["decl"] = r.choice(["obj", "str", "lazy"])
+            plan["tree"]["algos"] = [{"a": "Spy", "id": 900}] + plan["tree"]["algos"]
+            plan["seed"] = r.randrange(1 << 30)
+            return plan
         plan = drive_engine.gen_engine_plan(r, "mixed", tier) if i % 2 else drive_engine.gen_all_algos_plan(r, tier, stateful=False, random_algos=False)
         # make sure some children are declared lazily
         for _p, s in drive_engine.trees.strategies(plan["tree"]):
@@ -1643,6 +1799,7 @@ class C19(Spec):
             if v["check"] == "c19_lazy_vs_eager":
                 v["flags"]["uses_RunIfOutOfBounds"] = "RunIfOutOfBounds" in used
                 v["flags"]["uses_PTE_Rebalance"] = "PTE_Rebalance" in used
+                v["flags"]["uses_ReplayTransactions"] = "ReplayTransactions" in used
                 v["flags"]["uses_SelectTypes"] = "SelectTypes" in used
         return dict(viol=viol, fired=fired, nontrivial=bool(lazily_traded), info=info, dates=len(plan["feed"]["dates"]) * 2, steps=len(cols))
 
